@@ -186,6 +186,12 @@ def run_case(case, ctx):
            "n_init": n_init, "max_iter": max_iter, "tol": tol,
            "random_state": rs, "uniform_weights": bool(uniform_w), "dtype": str(X.dtype), "sub": case["sub"]}
     ctx.cls("class=" + cls)
+    from vrt import layouts
+    lay = layouts.pick(case["sub"], 1)
+    X = layouts.relayout(X, lay)
+    via = (case["sub"] // 5) % 4 == 0
+    cfg["layout"], cfg["configured_with"] = lay, "set_params" if via else "constructor"
+    ctx.cls("layout=" + lay)
     sq = float(numpy.abs(X - X.mean(axis=0)).max()) or 1.0
     sq = sq if cls in ("tiny-scale", "huge-scale") else 1.0
     Xq = numpy.vstack([X[: min(5, len(X))],
@@ -216,8 +222,9 @@ def run_case(case, ctx):
 
     mod._centers_dense = wrapped
     try:
-        m = KMeansL1L2(n_clusters=k, init=init_l1, n_init=n_init, max_iter=max_iter, tol=tol, random_state=rs,
-                       norm="L1")
+        m = layouts.build(KMeansL1L2, dict(n_clusters=k, init=init_l1, n_init=n_init, max_iter=max_iter, tol=tol,
+                                           random_state=rs, norm="L1"), via,
+                          dict(n_clusters=k + 2, n_init=5, max_iter=7, tol=0.5, norm="L2", random_state=rs + 1))
         try:
             with warnings.catch_warnings():
                 warnings.simplefilter("ignore")
@@ -340,7 +347,7 @@ def run_case(case, ctx):
     if not f32 or True:
         kw = dict(n_clusters=k, init=init, n_init=n_init, max_iter=max_iter, tol=tol, random_state=rs)
         try:
-            a = KMeansL1L2(norm="L2", **kw)
+            a = layouts.build(KMeansL1L2, dict(kw, norm="L2"), via, dict(n_clusters=k + 1, norm="L1", n_init=4))
             b = KMeans(**kw)
             with warnings.catch_warnings():
                 warnings.simplefilter("ignore")
